@@ -153,6 +153,15 @@ func genCommands(g *gen) {
 				},
 				Expect: map[string]string{"len(" + p.get + ")": "0", "isnil(" + p.get + ")": "false"}})
 		}
+		// unquoted shell operators are words like the others for a splitter that is not a shell
+		for _, ops := range [][]string{{"echo", "a", "&&", "echo", "b"}, {"cat", "f", "|", "wc", "-l"}, {"true", ";", "false"}, {"run", ">", "/tmp/out"}} {
+			g.emit(pcase{Position: p.name, Class: "shell-operator", Mode: "pair",
+				Docs: []spelled{
+					{Name: "list", Text: quoteList(ops), YAML: p.doc(strs(ops))},
+					{Name: "string", Text: strings.Join(ops, " "), YAML: p.doc(strings.Join(ops, " "))},
+				},
+				Expect: map[string]string{"len(" + p.get + ")": itoa(len(ops))}})
+		}
 		for i := 0; i < per; i++ {
 			k := 1 + r.Intn(4)
 			words := make([]string, k)
